@@ -58,7 +58,8 @@ def gen_layout(rng):
         topdocs[0]["$parent"] = "x"
     elif kind == "parent_list":
         files.update(extra_base)
-        topdocs[0]["$parent"] = rng.pick([["x", "y"], ["y", "x"], ["x"], [], ["x", 5]])
+        topdocs[0]["$parent"] = rng.pick([["x", "y"], ["y", "x"], ["x"], [], ["x", 5], ["x", "nothere"], ["nothere", "x"], ["x", "nomatch.*"],
+                                          ["x", "y", "zz"], ["x", "x"]])
     elif kind == "parent_wild":
         files["w.one.%s" % rng.pick(EXTS)] = ("reg", [{"one": 1, "$parent": False}])
         files["w.two.%s" % rng.pick(EXTS)] = ("reg", [{"two": 2, "$parent": False}])
@@ -77,7 +78,9 @@ def gen_layout(rng):
             topdocs[0]["$parent"] = False
     elif kind == "parent_second_doc":
         files.update(extra_base)
-        topdocs.append({"second": True, "$parent": rng.pick(["x", "y", False])})
+        topdocs.append({"second": True, "$parent": rng.pick(["x", "y", False, "nothere", "no.*"])})
+        if rng.chance(1, 2):
+            topdocs[0]["$parent"] = rng.pick(["x", "y"])
     elif kind == "symlink":
         files["lnk.%s" % ext_of[names[-1]]] = ("link", top)
         inputs = ["lnk.%s" % ext_of[names[-1]]]
